@@ -111,7 +111,194 @@ def _ren_term(t, lo, bo):
     return t
 
 
-def inline_raw(F, fn, keep, depth, stack):
+# ---------------------------------------------------------------------------
+# combinator desugaring: `opt.map(|x| ..)`, `cond.then(|| ..)`, `it.for_each(|x| ..)` ... are rewritten into the
+# switch / loop they stand for, with the closure called directly (and then inlined), so that a rule sees the same
+# control flow whether the code is written with `match` / `if let` / `for` or with combinators.
+
+ENUM_VARIANTS = {
+    "std::option::Option": [[0, "None"], [1, "Some"]],
+    "std::result::Result": [[0, "Ok"], [1, "Err"]],
+    "std::task::Poll": [[0, "Ready"], [1, "Pending"]],
+}
+COMBINATORS = [
+    (r"^core::bool::<impl bool>::then$", "then"),
+    (r"^core::bool::<impl bool>::then_some$", "then_some"),
+    (r"^std::option::Option::<.*>::map$", "opt_map"),
+    (r"^std::option::Option::<.*>::and_then$", "opt_and_then"),
+    (r"^std::option::Option::<.*>::map_or$", "opt_map_or"),
+    (r"^std::option::Option::<.*>::map_or_else$", "opt_map_or_else"),
+    (r"^std::option::Option::<.*>::unwrap_or_else$", "opt_unwrap_or_else"),
+    (r"^std::option::Option::<.*>::filter$", "opt_filter"),
+    (r"^std::task::Poll::<.*>::map$", "poll_map"),
+    (r"^std::result::Result::<.*>::map$", "res_map"),
+    (r"^std::result::Result::<.*>::and_then$", "res_and_then"),
+    (r"^std::iter::Iterator::for_each$", "for_each"),
+]
+import re as _re
+
+
+class _Builder:
+    def __init__(self, locals_, blocks, span):
+        self.locals, self.blocks, self.span = locals_, blocks, span
+
+    def local(self, ty="?"):
+        self.locals.append({"ty": ty, "name": None, "user": False})
+        return len(self.locals) - 1
+
+    def block(self, stmts=None, term=None):
+        self.blocks.append({"cleanup": False, "stmts": stmts or [], "term": term or {"k": "unreachable"}})
+        return len(self.blocks) - 1
+
+    def assign(self, place, rv):
+        return {"k": "assign", "place": place, "rv": rv, "span": self.span, "synthetic": True}
+
+    @staticmethod
+    def pl(l, *proj):
+        return {"l": l, "proj": list(proj)}
+
+    @staticmethod
+    def mv(place):
+        return {"k": "move", "place": place}
+
+    def payload(self, l, variant):
+        return self.pl(l, {"dc": variant}, {"f": 0, "name": "0", "ty": "?"})
+
+    def agg(self, adt, variant, ops):
+        return {"k": "agg", "of": "adt", "adt": adt, "variant": variant, "fields": [str(i) for i in range(len(ops))], "ops": ops}
+
+    def switch_enum(self, blk, local, adt, cases):
+        """append `discriminant + switch` to block blk; cases: variant -> target block."""
+        d = self.local("isize")
+        vs = ENUM_VARIANTS[adt]
+        self.blocks[blk]["stmts"].append(self.assign(self.pl(d), {"k": "discr", "place": self.pl(local), "adt": adt, "variants": vs}))
+        dead = self.block()
+        self.blocks[blk]["term"] = {"k": "switch", "on": self.mv(self.pl(d)), "targets": [[v, cases[n]] for v, n in vs if n in cases], "otherwise": dead, "span": self.span}
+
+    def call_fnlike(self, blk, fop, fdef, args, dest, target, unwind):
+        """terminate blk with a direct call of the closure / fn item `fop` (def path fdef when local) on `args`."""
+        if fdef:
+            self.blocks[blk]["term"] = {"k": "call", "callee": fdef, "resolved": fdef, "garg_defs": [], "fn_op": fop, "args": [fop] + list(args),
+                                        "dest": dest, "target": target, "unwind": unwind, "span": self.span, "synthetic": True, "extra": {}}
+        elif fop.get("k") == "const" and fop.get("fn"):
+            self.blocks[blk]["term"] = {"k": "call", "callee": fop["fn"], "resolved": fop["fn"], "garg_defs": list(fop.get("garg_defs") or []), "fn_op": fop,
+                                        "args": list(args), "dest": dest, "target": target, "unwind": unwind, "span": self.span, "synthetic": True, "extra": {}}
+        else:
+            tup = self.local("(?)")
+            self.blocks[blk]["stmts"].append(self.assign(self.pl(tup), {"k": "agg", "of": "tuple", "ops": list(args)}))
+            self.blocks[blk]["term"] = {"k": "call", "callee": "std::ops::FnOnce::call_once", "resolved": None, "garg_defs": [], "fn_op": {"k": "const", "ty": "fn", "val": "call_once"},
+                                        "args": [fop, self.mv(self.pl(tup))], "dest": dest, "target": target, "unwind": unwind, "span": self.span, "synthetic": True, "extra": {}}
+
+
+def _closure_def(F, fn, t, op, locals_=None):
+    """def path of a local closure passed as operand `op` of call `t` (None if it is not a local closure)."""
+    gds, gas = t.get("garg_defs") or [], t.get("gargs") or []
+    cands = [gd for gd in gds if gd and "{closure" in gd and F.local_callee(fn, {"resolved": gd}) is not None]
+    if len(cands) <= 1:
+        return cands[0] if cands else None
+    if locals_ is not None and op.get("k") in ("move", "copy") and not op["place"]["proj"]:
+        ty = str(locals_[op["place"]["l"]].get("ty"))
+        for ga, gd in zip(gas, gds):
+            if gd in cands and ga == ty:
+                return gd
+    return None
+
+
+def desugar_combinator(F, fn, locals_, blocks, i):
+    """rewrite blocks[i] when it ends in a call of a known combinator; returns True if rewritten."""
+    t = blocks[i]["term"]
+    callee = t.get("callee") or ""
+    kind = None
+    for pat, k in COMBINATORS:
+        if _re.search(pat, callee):
+            kind = k
+            break
+    if kind is None or t.get("target") is None or t["dest"]["proj"]:
+        return False
+    B = _Builder(locals_, blocks, t.get("span"))
+    args, dest, target, unwind = t["args"], t["dest"], t["target"], t.get("unwind")
+    OPT, POLL, RES = "std::option::Option", "std::task::Poll", "std::result::Result"
+
+    def recv_local():
+        r = B.local(locals_[args[0]["place"]["l"]]["ty"] if args[0]["k"] in ("move", "copy") and not args[0]["place"]["proj"] else "?")
+        blocks[i]["stmts"] = blocks[i]["stmts"] + [B.assign(B.pl(r), {"k": "use", "op": args[0]})]
+        return r
+
+    def fdef(op):
+        return _closure_def(F, fn, t, op, locals_)
+
+    def finish(b, rv):
+        blocks[b]["stmts"].append(B.assign(dest, rv))
+        blocks[b]["term"] = {"k": "goto", "target": target}
+
+    if kind in ("then", "then_some"):
+        r = recv_local()
+        yes, no = B.block(), B.block()
+        blocks[i]["term"] = {"k": "switch", "on": B.mv(B.pl(r)), "targets": [[0, no]], "otherwise": yes, "span": t.get("span")}
+        finish(no, B.agg(OPT, "None", []))
+        if kind == "then":
+            v, after = B.local(), B.block()
+            B.call_fnlike(yes, args[1], fdef(args[1]), [], B.pl(v), after, unwind)
+            finish(after, B.agg(OPT, "Some", [B.mv(B.pl(v))]))
+        else:
+            finish(yes, B.agg(OPT, "Some", [args[1]]))
+        return True
+    if kind in ("opt_map", "opt_and_then", "opt_map_or", "opt_map_or_else", "opt_unwrap_or_else", "opt_filter", "poll_map", "res_map", "res_and_then"):
+        adt = POLL if kind == "poll_map" else RES if kind.startswith("res_") else OPT
+        full, empty = {OPT: ("Some", "None"), POLL: ("Ready", "Pending"), RES: ("Ok", "Err")}[adt]
+        r = recv_local()
+        yes, no = B.block(), B.block()
+        B.switch_enum(i, r, adt, {full: yes, empty: no})
+        x = B.local()
+        blocks[yes]["stmts"].append(B.assign(B.pl(x), {"k": "use", "op": B.mv(B.payload(r, full))}))
+        f_op = args[-1]
+        if kind in ("opt_map", "poll_map", "res_map"):
+            v, after = B.local(), B.block()
+            B.call_fnlike(yes, f_op, fdef(f_op), [B.mv(B.pl(x))], B.pl(v), after, unwind)
+            finish(after, B.agg(adt, full, [B.mv(B.pl(v))]))
+            if adt == RES:
+                finish(no, B.agg(adt, empty, [B.mv(B.payload(r, empty))]))
+            else:
+                finish(no, B.agg(adt, empty, []))
+        elif kind in ("opt_and_then", "res_and_then"):
+            B.call_fnlike(yes, f_op, fdef(f_op), [B.mv(B.pl(x))], dest, target, unwind)
+            finish(no, B.agg(adt, empty, [B.mv(B.payload(r, empty))] if adt == RES else []))
+        elif kind == "opt_map_or":
+            B.call_fnlike(yes, f_op, fdef(f_op), [B.mv(B.pl(x))], dest, target, unwind)
+            finish(no, {"k": "use", "op": args[1]})
+        elif kind == "opt_map_or_else":
+            B.call_fnlike(yes, f_op, fdef(f_op), [B.mv(B.pl(x))], dest, target, unwind)
+            B.call_fnlike(no, args[1], fdef(args[1]), [], dest, target, unwind)
+        elif kind == "opt_unwrap_or_else":
+            finish(yes, {"k": "use", "op": B.mv(B.pl(x))})
+            B.call_fnlike(no, f_op, fdef(f_op), [], dest, target, unwind)
+        elif kind == "opt_filter":
+            keep_, ref, yes2, no2 = B.local("bool"), B.local(), B.block(), B.block()
+            blocks[yes]["stmts"].append(B.assign(B.pl(ref), {"k": "ref", "mut": False, "place": B.pl(x)}))
+            sw = B.block()
+            B.call_fnlike(yes, f_op, fdef(f_op), [B.mv(B.pl(ref))], B.pl(keep_), sw, unwind)
+            blocks[sw]["term"] = {"k": "switch", "on": B.mv(B.pl(keep_)), "targets": [[0, no2]], "otherwise": yes2, "span": t.get("span")}
+            finish(yes2, B.agg(OPT, "Some", [B.mv(B.pl(x))]))
+            finish(no2, B.agg(OPT, "None", []))
+            finish(no, B.agg(OPT, "None", []))
+        return True
+    if kind == "for_each":
+        it = recv_local()
+        head, sw, body_, exit_ = B.block(), B.block(), B.block(), B.block()
+        blocks[i]["term"] = {"k": "goto", "target": head}
+        ref, nx, x, unit = B.local(), B.local("std::option::Option<?>"), B.local(), B.local("()")
+        blocks[head]["stmts"].append(B.assign(B.pl(ref), {"k": "ref", "mut": True, "place": B.pl(it)}))
+        blocks[head]["term"] = {"k": "call", "callee": "std::iter::Iterator::next", "resolved": None, "garg_defs": [], "fn_op": {"k": "const", "ty": "fn", "val": "next"},
+                                "args": [B.mv(B.pl(ref))], "dest": B.pl(nx), "target": sw, "unwind": unwind, "span": t.get("span"), "synthetic": True, "extra": {}}
+        B.switch_enum(sw, nx, OPT, {"Some": body_, "None": exit_})
+        blocks[body_]["stmts"].append(B.assign(B.pl(x), {"k": "use", "op": B.mv(B.payload(nx, "Some"))}))
+        B.call_fnlike(body_, args[1], fdef(args[1]), [B.mv(B.pl(x))], B.pl(unit), head, unwind)
+        finish(exit_, {"k": "agg", "of": "tuple", "ops": []})
+        return True
+    return False
+
+
+def inline_raw(F, fn, keep, depth, stack, desugar=False):
     raw = fn.raw["built"]
     if raw is None:
         return None
@@ -122,10 +309,12 @@ def inline_raw(F, fn, keep, depth, stack):
     i = 0
     while i < len(blocks) and len(blocks) < MAX_BLOCKS:
         t = blocks[i]["term"]
+        if desugar and t["k"] == "call" and not blocks[i]["cleanup"] and desugar_combinator(F, fn, locals_, blocks, i):
+            t = blocks[i]["term"]
         if t["k"] == "call":
             c = F.local_callee(fn, t)
             if c is not None and c.key not in stack and c.key != fn.key and c.raw.get("built") is not None and not keep(c) and t.get("target") is not None:
-                craw = inline_raw(F, c, keep, depth - 1, stack | {fn.key})
+                craw = inline_raw(F, c, keep, depth - 1, stack | {fn.key}, desugar)
                 lo, bo = len(locals_), len(blocks)
                 for l in craw["locals"]:
                     locals_.append(l)
@@ -160,14 +349,14 @@ def inline_raw(F, fn, keep, depth, stack):
     return {"arg_count": raw["arg_count"], "locals": locals_, "upvars": raw.get("upvars", []), "captures": raw.get("captures", []), "blocks": blocks}
 
 
-def inlined(F, fn, keep=None, depth=3, tag="default"):
-    """Body of fn with local helpers inlined (cached per (fn, tag))."""
+def inlined(F, fn, keep=None, depth=3, tag="default", desugar=False):
+    """Body of fn with local helpers inlined (cached per (fn, tag)); desugar=True also rewrites combinator calls."""
     cache = F.__dict__.setdefault("_inline_cache", {})
-    key = (fn.key, tag)
+    key = (fn.key, tag, desugar)
     if key in cache:
         return cache[key]
     k = keep or default_keep
-    raw = inline_raw(F, fn, k, depth, frozenset())
+    raw = inline_raw(F, fn, k, depth, frozenset(), desugar)
     body = Body(fn, raw, "built+inlined") if raw is not None else None
     cache[key] = body
     return body
